@@ -52,11 +52,12 @@ CONSTANTS Configs,   \* sequence of configuration records (see harness/props/c03
 NoneV == 99          \* Python None in slice fields
 MaxN  == Len(Signals[1][1][1])
 
-VARIABLES cid, gpos, dir, pl, has, ai, op, held
+VARIABLES cid, gpos, dir, pl, has, ai, reqs, op, held
 \* ai: index of the current antenna configuration in c.ants (set_num_antennas may change it between transmissions);
 \* held (ghost, like op outside the VIEW): the last successful transmission, i.e. the arrays the caller still holds
-vars == <<cid, gpos, dir, pl, has, ai, op, held>>
-Core == <<cid, gpos, dir, pl, has, ai>>
+\* reqs: the sampling intervals (indexes into c.tss) ONE shared TdlChannelProfile object has been discretised for, in order
+vars == <<cid, gpos, dir, pl, has, ai, reqs, op, held>>
+Core == <<cid, gpos, dir, pl, has, ai, reqs>>
 NoOp == [k |-> "Init"]
 
 \* TLC evaluates function constructors lazily and does not memoise their elements: every array
@@ -119,6 +120,35 @@ DiscLaws(prof) == LET D == MDisc(prof)  XD == XDisc(prof) IN
   /\ DiscSorted(D) /\ DiscUnique(D) /\ DiscInteger(D) /\ DiscSumOne(D) /\ DiscMerged(prof, D)
   /\ D.delays = XD.delays
   /\ \A j \in 1..Len(D.powers) : D.powers[j] = XD.powers[j]
+
+(* ---- the same profile object discretised for SEVERAL sampling intervals.  Interval t is Ts * sc, sc = <<a, b>> = a/b ---- *)
+(*      (e.g. 50001/50000: a sampling clock 20 ppm slow), so a tap at qd/4 nominal samples sits at qd b / (4 a) samples *)
+PosS(qd, sc) == RNorm(qd * sc[2], 4 * sc[1])
+IsRoundOfR(d, pos) == LET e == RAbs(RSub(R(d), pos)) IN RLt(e, <<1, 2>>) \/ (e = <<1, 2>> /\ d % 2 = 0)
+IsTieS(qd, sc) == LET pos == PosS(qd, sc) IN pos[2] = 2
+XDiscS(prof, sc) ==
+  LET pos == E([i \in 1..Len(prof) |-> PosS(prof[i][1], sc)])
+      top == ((MaxQ(prof) * sc[2]) \div (4 * sc[1])) + 1          \* integer bound (no cross products: 32-bit integers)
+      ds == SortSet({d \in 0..top : \E i \in 1..Len(prof) : IsRoundOfR(d, pos[i])})
+      tot == Total(prof)
+  IN  [delays |-> ds,
+       powers |-> E([j \in 1..Len(ds) |->
+                     RDiv(RSum(Len(prof), [i \in 1..Len(prof) |-> IF IsRoundOfR(ds[j], pos[i]) THEN prof[i][2] ELSE RZero]), tot)])]
+\* machine: np.unique(np.round(delays / Ts_t)) ... computed for the interval it is GIVEN
+MDiscS(prof, sc) ==
+  LET n  == Len(prof)
+      rd == E([i \in 1..n |-> RRoundHalfEven(PosS(prof[i][1], sc))])
+      ds == SortSet({rd[i] : i \in 1..n})
+      acc == E([j \in 1..Len(ds) |-> RSum(n, [i \in 1..n |-> IF rd[i] = ds[j] THEN prof[i][2] ELSE RZero])])
+      tot == RSumTo(acc, Len(ds))
+  IN  [delays |-> ds, powers |-> E([j \in 1..Len(ds) |-> RDiv(acc[j], tot)])]
+\* what a request for interval t returns after the requests `rq` on the same object.  Dev.DiscMemoRoundedTs: results are
+\* memoised per object under the interval PRINTED with 4 significant digits (c.tkeys), so a later request whose interval
+\* prints alike gets the delays computed for the earlier one
+MDiscShared(c, rq, t) ==
+  LET same == {u \in 1..Len(rq) : c.tkeys[rq[u]] = c.tkeys[t]}
+      src == IF Dev.DiscMemoRoundedTs /\ same # {} THEN rq[CHOOSE u \in same : \A w \in same : u <= w] ELSE t
+  IN  MDiscS(c.prof, c.tss[src])
 
 NTaps(D) == Len(D.delays)
 Mem(D)   == D.delays[Len(D.delays)]              \* channel memory = num_taps_with_padding - 1
@@ -345,7 +375,7 @@ MFreqY8(c, D, T, d, p, o, s) ==
 (* 5. Actions: one per public call                                                        *)
 (* ====================================================================================== *)
 NoHeld == [o |-> NoOp]
-Init == /\ cid \in 1..Len(Configs) /\ gpos = 0 /\ dir = FALSE /\ pl = 0 /\ has = FALSE /\ ai = 1 /\ op = NoOp /\ held = NoHeld
+Init == /\ cid \in 1..Len(Configs) /\ gpos = 0 /\ dir = FALSE /\ pl = 0 /\ has = FALSE /\ ai = 1 /\ reqs = <<>> /\ op = NoOp /\ held = NoHeld
 Hold(o) == [g |-> gpos, d |-> dir, p |-> pl, a |-> ai, o |-> o]
 
 \* corrupt_data(signal o.s of o.n symbols); o.n = 0 (empty input) is a valid call: memory zeros, 0 samples
@@ -353,7 +383,7 @@ Transmit ==
   \E j \in 1..Len(C.ops) : LET o == C.ops[j] IN
     /\ o.k = "T" /\ o.n >= 0 /\ o.n <= MaxN /\ gpos + o.n <= C.maxpos
     /\ gpos' = gpos + o.n /\ has' = TRUE /\ op' = o /\ held' = Hold(o)
-    /\ UNCHANGED <<cid, dir, pl, ai>>
+    /\ UNCHANGED <<cid, dir, pl, ai, reqs>>
 
 \* corrupt_data_in_freq_domain(signal o.s of o.n blocks, o.fft, selection o.sk / o.sel)
 TransmitFreq ==
@@ -368,21 +398,21 @@ TransmitFreq ==
          /\ has' = (has \/ out # "raises-before")
          /\ held' = (IF out = "ok" THEN Hold(o) ELSE held)
     /\ op' = o
-    /\ UNCHANGED <<cid, dir, pl, ai>>
+    /\ UNCHANGED <<cid, dir, pl, ai, reqs>>
 
 \* TdlChannel.generate_impulse_response(o.n)
 GenerateIR ==
   \E j \in 1..Len(C.ops) : LET o == C.ops[j] IN
     /\ o.k = "Gen" /\ C.kind = "tdl" /\ gpos + o.n <= C.maxpos
     /\ gpos' = gpos + o.n /\ has' = TRUE /\ op' = o
-    /\ UNCHANGED <<cid, dir, pl, ai, held>>
+    /\ UNCHANGED <<cid, dir, pl, ai, held, reqs>>
 
 \* switched_direction = (o.n = 1)
 SetDirection ==
   \E j \in 1..Len(C.ops) : LET o == C.ops[j] IN
     /\ o.k = "Dir" /\ dir # (o.n = 1)
     /\ dir' = (o.n = 1) /\ op' = o
-    /\ UNCHANGED <<cid, gpos, pl, has, ai, held>>
+    /\ UNCHANGED <<cid, gpos, pl, has, ai, held, reqs>>
 
 \* set_pathloss(value o.n; 0 = None).  MuChannel.set_pathloss(None) raises today (documented as valid).
 PlNoneRaises(c, o) == Dev.MuSetPathlossNoneRaises /\ c.kind = "mu" /\ o.n = 0
@@ -390,7 +420,7 @@ SetPathloss ==
   \E j \in 1..Len(C.ops) : LET o == C.ops[j] IN
     /\ o.k = "PL" /\ C.kind \in {"su", "mu"} /\ o.n \in 0..Len(C.pls) /\ pl # o.n
     /\ pl' = (IF PlNoneRaises(C, o) THEN pl ELSE o.n) /\ op' = o
-    /\ UNCHANGED <<cid, gpos, dir, has, ai, held>>
+    /\ UNCHANGED <<cid, gpos, dir, has, ai, held, reqs>>
 
 \* set_num_antennas(Nr, Nt) of TdlChannel / SuChannel, also AFTER transmissions ((None, None) = back to SISO): the
 \* generator position, the direction, the path loss and the last response persist; only the antenna numbers change
@@ -398,16 +428,26 @@ SetAntennas ==
   \E j \in 1..Len(C.ops) : LET o == C.ops[j] IN
     /\ o.k = "Ant" /\ C.kind \in {"tdl", "su"} /\ o.n \in 1..Len(C.ants) /\ o.n # ai
     /\ ai' = o.n /\ op' = o
-    /\ UNCHANGED <<cid, gpos, dir, pl, has, held>>
+    /\ UNCHANGED <<cid, gpos, dir, pl, has, held, reqs>>
 
 \* TdlChannelProfile.get_discretize_profile for one profile of the enumerated domain
 ProfDomain(c) == {p \in [1..c.ntaps -> c.qds \X c.pws] : p[1][1] \in c.q1 /\ RIsPos(Total(p))}   \* some tap has power
 DiscretizeCase ==
   /\ C.kind = "disc"
   /\ \E p \in ProfDomain(C) : op' = [k |-> "Disc", prof |-> p]
+  /\ UNCHANGED <<cid, gpos, dir, pl, has, ai, held, reqs>>
+
+\* get_discretize_profile(Ts * c.tss[t]) - directly or through a channel constructor - on ONE profile object shared by all
+\* the requests of the history (module-level profiles such as COST259_TUx are shared by every channel of a process).
+\* Exact half-sample ties are admitted only for the nominal interval (sc = 1: dyadic, exact in floating point).
+DiscretizeShared ==
+  /\ C.kind = "dhist" /\ Len(reqs) < C.maxreq
+  /\ \E t \in 1..Len(C.tss) :
+       /\ (C.tss[t] = <<1, 1>> \/ \A i \in 1..Len(C.prof) : ~IsTieS(C.prof[i][1], C.tss[t]))
+       /\ reqs' = Append(reqs, t) /\ op' = [k |-> "DiscS", t |-> t]
   /\ UNCHANGED <<cid, gpos, dir, pl, has, ai, held>>
 
-Next == Transmit \/ TransmitFreq \/ GenerateIR \/ SetDirection \/ SetPathloss \/ SetAntennas \/ DiscretizeCase
+Next == DiscretizeShared \/ Transmit \/ TransmitFreq \/ GenerateIR \/ SetDirection \/ SetPathloss \/ SetAntennas \/ DiscretizeCase
 Spec == Init /\ [][Next]_vars
 
 (* ====================================================================================== *)
@@ -417,12 +457,12 @@ TypeOK == /\ cid \in 1..Len(Configs) /\ ai \in 1..Len(Configs[cid].ants) /\ gpos
           /\ pl \in 0..(IF C.kind \in {"su", "mu"} THEN Len(C.pls) ELSE 0)
 
 \* the profile every channel is built on obeys the discretisation laws; so does every enumerated profile
-DiscStep == IF op'.k = "Disc" THEN DiscLaws(op'.prof) ELSE (C.kind # "disc" => DiscLaws(C.prof))
+DiscStep == IF op'.k = "Disc" THEN DiscLaws(op'.prof) ELSE (C.kind \notin {"disc", "dhist"} => DiscLaws(C.prof))
 
 \* the generator advances by n per time-domain call and by fft per frequency-domain block
 PosStep == /\ op'.k \in {"T", "Gen"} => gpos' = gpos + op'.n
            /\ op'.k = "F" => gpos' = gpos + op'.n * op'.fft
-           /\ op'.k \in {"Dir", "PL", "Ant", "Disc"} => gpos' = gpos
+           /\ op'.k \in {"Dir", "PL", "Ant", "Disc", "DiscS"} => gpos' = gpos
 \* setters set exactly their own attribute (None included)
 SetStep == /\ op'.k = "PL" => (pl' = op'.n /\ dir' = dir /\ ai' = ai)
            /\ op'.k = "Dir" => (dir' = (op'.n = 1) /\ pl' = pl /\ ai' = ai)
@@ -455,6 +495,7 @@ ExpectedAt(c, g, d, p, o) ==
         fdbs |-> IF o.sk = "slice" THEN FloorDivBS(o) ELSE Len(SelIdx(o))]
   ELSE IF o.k = "Gen" THEN [ir |-> XIR(c, D, g, p, o), delays |-> D.delays, mem |-> Mem(D)]
   ELSE IF o.k = "Disc" THEN [disc |-> XDisc(o.prof)]
+  ELSE IF o.k = "DiscS" THEN [disc |-> XDiscS(c.prof, c.tss[o.t])]
   ELSE [none |-> 0]
 
 (* ---- frame conditions on the calls (notes/CALL_DISCIPLINE.md 1, 2) ---- *)
@@ -523,6 +564,14 @@ FreqStep(o) ==
 ChanStep == /\ op'.k \in {"T", "Gen"} => TimeStep(op')
             /\ (op'.k = "F" /\ FOutcome(op') = "ok") => FreqStep(op')
 
+\* a discretisation depends on the profile and on the interval it is asked for - not on what the same object was
+\* discretised for before (nor on the order of the requests) - and obeys the discretisation laws for THAT interval
+SharedStep == op'.k = "DiscS" =>
+  LET D == MDiscShared(C, reqs, op'.t)  XD == XDiscS(C.prof, C.tss[op'.t]) IN
+  /\ DiscSorted(D) /\ DiscUnique(D) /\ DiscInteger(D) /\ DiscSumOne(D)
+  /\ D.delays = XD.delays /\ \A j \in 1..Len(D.powers) : D.powers[j] = XD.powers[j]
+  /\ (C.tss[op'.t] = <<1, 1>> => XD.delays = XDisc(C.prof).delays)
+SharedLaw == [][SharedStep]_vars
 DiscLaw  == [][DiscStep]_vars
 PosLaw   == [][PosStep]_vars
 SetLaw   == [][SetStep]_vars
@@ -532,8 +581,8 @@ ChanLaw  == [][ChanStep]_vars
 (* ====================================================================================== *)
 (* 7. Emission: every transition with the exact observables the property demands          *)
 (* ====================================================================================== *)
-StateRec  == [gpos |-> gpos, dir |-> dir, pl |-> pl, has |-> has, ai |-> ai]
-StateRecP == [gpos |-> gpos', dir |-> dir', pl |-> pl', has |-> has', ai |-> ai']
+StateRec  == [gpos |-> gpos, dir |-> dir, pl |-> pl, has |-> has, ai |-> ai, reqs |-> reqs]
+StateRecP == [gpos |-> gpos', dir |-> dir', pl |-> pl', has |-> has', ai |-> ai', reqs |-> reqs']
 Expected(o) == ExpectedAt(C, gpos, dir, pl, o)
 \* pre/post: the machine's states (graph nodes)
 Emit == EmitEdge([cid |-> C.id, pre |-> StateRec, post |-> StateRecP, op |-> op', exp |-> Expected(op')])
